@@ -1,0 +1,96 @@
+//go:build verif
+
+package quicvarint
+
+// Contracts for quicvarint (property C08; used by every wire codec). Bit-vector arithmetic throughout.
+
+//@ spec vlen(x uint64) int = ite(x <= 63, 1, ite(x <= 16383, 2, ite(x <= 1073741823, 4, 8)))
+
+// first-byte length prefix -> encoded length
+//@ spec plen(first uint8) int = ite(first>>6 == 0, 1, ite(first>>6 == 1, 2, ite(first>>6 == 2, 4, 8)))
+
+// value decoded from the bytes of s according to RFC 9000 §16 (s long enough)
+//@ spec vdec(s []byte) uint64 = ite(s[0]>>6 == 0, uint64(s[0]&63),
+//@        ite(s[0]>>6 == 1, uint64(s[0]&63)<<8 | uint64(s[1]),
+//@        ite(s[0]>>6 == 2, uint64(s[0]&63)<<24 | uint64(s[1])<<16 | uint64(s[2])<<8 | uint64(s[3]),
+//@            uint64(s[0]&63)<<56 | uint64(s[1])<<48 | uint64(s[2])<<40 | uint64(s[3])<<32 | uint64(s[4])<<24 | uint64(s[5])<<16 | uint64(s[6])<<8 | uint64(s[7]))))
+
+//@ extern (r encoding/binary.bigEndian) Uint64
+//@   arith bv
+//@   requires len(b) >= 8
+//@   ensures  result == uint64(b[0])<<56 | uint64(b[1])<<48 | uint64(b[2])<<40 | uint64(b[3])<<32 | uint64(b[4])<<24 | uint64(b[5])<<16 | uint64(b[6])<<8 | uint64(b[7])
+//@   modifies nothing
+
+//@ func Len
+//@   props C08
+//@   arith bv
+//@   panics when i > 4611686018427387903
+//@   ensures  [value] result == vlen(i)
+//@   modifies nothing
+
+//@ func Parse
+//@   props C08
+//@   arith bv
+//@   ensures  [err-iff]  iff(result2 != nil, len(b) == 0 || len(b) < plen(b[0]))
+//@   ensures  [on-error] implies(result2 != nil, result0 == 0 && result1 == 0)
+//@   ensures  [consumed] implies(result2 == nil, result1 == plen(b[0]) && result1 <= len(b) && result1 >= 1)
+//@   ensures  [range]    implies(result2 == nil, result0 <= 4611686018427387903)
+//@   ensures  [value]    implies(result2 == nil, result0 == vdec(b))
+//@   modifies nothing
+
+//@ func Append
+//@   props C08
+//@   arith bv
+//@   panics when i > 4611686018427387903
+//@   ensures  [len]    len(result) == len(b) + vlen(i)
+//@   ensures  [prefix] forall(k, 0, len(b), result[k] == old(b[k]))
+//@   ensures  [array]  samearray(result, b) || isfresh(result)
+//@   ensures  [in-place] implies(len(b) + vlen(i) <= cap(b), samearray(result, b) && cap(result) == cap(b))
+//@   ensures  [bv:b1]     implies(i <= 63, result[len(b)] == uint8(i))
+//@   ensures  [bv:b2]     implies(i > 63 && i <= 16383, result[len(b)] == uint8(i>>8)|0x40 && result[len(b)+1] == uint8(i))
+//@   ensures  [bv:b4]     implies(i > 16383 && i <= 1073741823, result[len(b)] == uint8(i>>24)|0x80 && result[len(b)+1] == uint8(i>>16) && result[len(b)+2] == uint8(i>>8) && result[len(b)+3] == uint8(i))
+//@   ensures  [bv:b8]     implies(i > 1073741823, result[len(b)] == uint8(i>>56)|0xc0 && result[len(b)+1] == uint8(i>>48) && result[len(b)+2] == uint8(i>>40) && result[len(b)+3] == uint8(i>>32) &&
+//@                                 result[len(b)+4] == uint8(i>>24) && result[len(b)+5] == uint8(i>>16) && result[len(b)+6] == uint8(i>>8) && result[len(b)+7] == uint8(i))
+//@   modifies b[*]
+
+//@ lemma varintRoundTrip
+//@   props C08
+//@   arith bv
+//@   var b []byte
+//@   var i uint64
+//@   assume i <= 4611686018427387903
+//@   step r = Append(b, i)
+//@   step v, n, err = Parse(r[len(b):])
+//@   show [ok]    err == nil
+//@   show [value] v == i
+//@   show [len]   n == vlen(i)
+
+//@ func AppendWithLen
+//@   props C08
+//@   arith bv
+//@   panics when (length != 1 && length != 2 && length != 4 && length != 8) || i > 4611686018427387903 || vlen(i) > length
+//@   ensures  [len] len(result) == len(b) + length
+//@   ensures  [array] samearray(result, b) || isfresh(result)
+//@   ensures  [in-place] implies(len(b) + length <= cap(b), samearray(result, b) && cap(result) == cap(b))
+//@   modifies b[*]
+//@ loop AppendWithLen #0
+//@   invariant 0 <= iter && iter < length - l - 1
+//@   invariant len(b) == len(old(b)) + 1 + iter
+//@   invariant samearray(b, old(b)) || isfresh(b)
+//@   invariant implies(len(old(b)) + length <= cap(old(b)), samearray(b, old(b)) && cap(b) == cap(old(b)))
+//@   invariant l == vlen(i) && l < length && (length == 2 || length == 4 || length == 8) && i <= 4611686018427387903
+//@   modifies old(b)[*]
+//@ loop AppendWithLen #1
+//@   invariant 0 <= iter && iter < l
+//@   invariant len(b) == len(old(b)) + length - l + iter
+//@   invariant samearray(b, old(b)) || isfresh(b)
+//@   invariant implies(len(old(b)) + length <= cap(old(b)), samearray(b, old(b)) && cap(b) == cap(old(b)))
+//@   invariant l == vlen(i) && l < length && (length == 2 || length == 4 || length == 8)
+//@   modifies old(b)[*]
+
+//@ func Read
+//@   props C08
+//@   arith bv
+//@   ensures  [range] implies(result1 == nil, result0 <= 4611686018427387903)
+//@   ensures  [on-error] implies(result1 != nil, result0 == 0)
+//@   modifies nothing
